@@ -92,6 +92,7 @@ struct Harness {
 };
 
 int workerMain(int argc, char **argv, const Harness &h);
+int workerId();   // from --worker N (0 when absent)
 
 inline QJsonObject violation(const QString &key, const QString &msg)
 {
